@@ -79,7 +79,8 @@ def shards(tier, seed):
     for i in range(parts):
         out.append({"kind": "bfs", "part": i, "parts": parts, "length": L, "name": f"bfs{i}"})
     for i in range(10 if tier == "quick" else 24):
-        out.append({"kind": "random", "name": f"random{i}", "n": 10 if tier == "quick" else 120})
+        out.append({"kind": "random", "name": f"random{i}", "n": 10 if tier == "quick" else 120,
+                    "nit": "fraction" if i % 3 == 2 else "float"})
     return out
 
 
@@ -119,7 +120,7 @@ def answer(ureg, pint, q):
     try:
         kind = q[0]
         if kind == "convert":
-            return repr(ureg.convert(1.0, q[1], q[2]))
+            return repr(ureg.convert(ureg.non_int_type(1), q[1], q[2]))
         if kind == "parse_units":
             return repr(sorted(ureg.parse_units(q[1])._units._d.items()))
         if kind == "parse_expression":
@@ -136,7 +137,7 @@ def answer(ureg, pint, q):
         if kind == "compat":
             return repr(sorted(str(x) for x in ureg.get_compatible_units(q[1])))
         if kind == "format":
-            return format(ureg.Quantity(2.5, q[1]), q[2])
+            return format(ureg.Quantity(ureg.non_int_type("2.5"), q[1]), q[2])
         if kind == "compact":
             r = ureg.Quantity(q[2], q[1]).to_compact()
             return repr((r.magnitude, sorted(r._units._d.items())))
@@ -159,12 +160,12 @@ def make_redef_context(pint):
 
 
 class World:
-    def __init__(self, pint, pintload):
-        self.pint, self.pintload = pint, pintload
+    def __init__(self, pint, pintload, nit=float):
+        self.pint, self.pintload, self.nit = pint, pintload, nit
         self.twins = {}
 
     def fresh(self):
-        u = self.pintload.registry()
+        u = self.pintload.registry(non_int_type=self.nit)
         u.add_context(make_redef_context(self.pint))
         return u
 
@@ -240,7 +241,7 @@ def run_history(ops, world, rec, rng, tag):
             rec.count("state_changes")
             continue
         if op == "second":
-            other = pint.UnitRegistry(cache_folder=None)
+            other = pint.UnitRegistry(cache_folder=None)   # float registry: shares process-wide lru caches
             other.define("vfu0 = 11 * second")      # same name, different meaning, other registry
             other.define("pound = 1 * kilogram")
             other.enable_contexts("sp")
@@ -298,7 +299,10 @@ def run_shard(spec, rec):
     import pint
 
     rng = random.Random(spec["seed"])
-    world = World(pint, pintload)
+    from fractions import Fraction
+    nit = Fraction if spec.get("nit") == "fraction" else float
+    world = World(pint, pintload, nit)
+    rec.observe("numeric_types", nit.__name__)
     if spec["kind"] == "bfs":
         k = 0
         # each enumerated state-change prefix is followed by the full question pool, asked twice
